@@ -66,7 +66,50 @@ def gen_stream_case(rng, max_len=None):
                            bytes(rng.choice([0, 5]))))
         elif r < 0.25:  # unrelated id, arbitrary content
             merged.append((rng.choice(NOISE_POOL), rand_telegram(rng, rng.randint(0, 8))))
+        elif r < 0.40:  # a burst of frames of ONE unrelated id which look like ISO-TP frames themselves
+            nid_ = rng.choice(NOISE_POOL)
+            k0 = rng.randrange(16)
+            for j in range(rng.randint(2, 4)):
+                kind = rng.choice(["sf", "cf", "cf", "ff"])
+                if kind == "sf":
+                    d = bytes([3, 0xDE, 0xAD, 0xBE]) + bytes(4)
+                elif kind == "cf":
+                    d = bytes([0x20 | ((k0 + j) % 16)]) + rand_telegram(rng, 7)
+                else:
+                    d = bytes([0x10, 20]) + rand_telegram(rng, 6)
+                merged.append((nid_, d))
     return rx, fsz, merged, sent
+
+
+SNOOP_RX, SNOOP_TX = 123, 456  # the CAN ids of the shipped somersault database (decimal in the ODX)
+
+
+def snoop_cases(rng, n):
+    """frame streams on the two ids of the somersault ECU whose telegrams the database cannot decode (so that the
+    tool prints their bytes), with the telegrams in the order of their completion"""
+    out = []
+    for _ in range(n):
+        per = []
+        for rid, sid in ((SNOOP_RX, 0xAB), (SNOOP_TX, 0xEB)):
+            fr = []
+            for _ in range(rng.randint(1, 3)):
+                t = bytes([sid]) + rand_telegram(rng, rng.choice([0, 1, 5, 6, 7, 12, 13, 30, 100]))
+                segs = ic.segment(8, t, b"\x55" * rng.choice([0, 0, 1]))
+                fr.extend((rid, f, t if i == len(segs) - 1 else None) for i, f in enumerate(segs))
+            per.append(fr)
+        merged, want = [], []
+        while any(per):
+            src = rng.choice([x for x in per if x])
+            rid, f, done = src.pop(0)
+            merged.append((rid, f))
+            if done is not None:
+                want.append(["req" if rid == SNOOP_RX else "resp", done.hex()])
+            if rng.random() < 0.2:
+                merged.append((rng.choice([SNOOP_RX, SNOOP_TX] + NOISE_POOL), bytes([0x30, 0, 0])))
+            if rng.random() < 0.2:
+                merged.append((rng.choice(NOISE_POOL + [0x123, 0x456]), bytes([3, 1, 2, 3])))
+        out.append((merged, want))
+    return out
 
 
 def check_case(ck, rx, frames, sent, mres_passive, mres_active, tx, psize, pval, label):
@@ -220,14 +263,35 @@ def main(argv=None):
             for ts, _, _ in ic.run_impl(rx, [], 0, 0, frames, False)[0]:
                 direct.extend(ts)
             for style in (0, 1, 2):
-                got, warn = ic.run_impl_log(rx, frames, lambda k, d: style)
+                # lines which are no frames (blank, white space, comments) and CRLF line ends change nothing
+                junk = {rng.randrange(len(frames) + 1): rng.choice(ic.JUNK_LINES) for _ in range(rng.choice([0, 1, 2]))}
+                eol = rng.choice(["\n", "\n", "\r\n"])
+                got, warn = ic.run_impl_log(rx, frames, lambda k, d: style, junk, eol)
+                ck.hist("log_junk", f"{len(junk)} junk lines, eol {eol!r}")
                 if got != direct:
                     ck.violation(
                         f"read_telegrams over log format {style} reports different telegrams than decode_rx_frame",
                         {"rx": rx, "style": style, "frames": [[f, bytes(d).hex()] for f, d in frames],
-                         "stderr": warn[:300]})
+                         "junk_lines": {str(k): v for k, v in junk.items()}, "eol": eol, "stderr": warn[:300]})
                     break
     ck.coverage["log_cases"] = nlog
+    # the snoop tool end to end: ids from the database, in hex and in decimal on the command line
+    if not ck.replay:
+        nsn = 0
+        for frames, want in snoop_cases(rng, 6 if quick else 60):
+            for rx_arg, tx_arg in ((None, None), (hex(SNOOP_RX), hex(SNOOP_TX)), (str(SNOOP_RX), str(SNOOP_TX))):
+                style = rng.choice([0, 1])
+                junk = {rng.randrange(len(frames) + 1): rng.choice(ic.JUNK_LINES)} if rng.random() < 0.5 else None
+                text = ic.log_text(frames, lambda k, d: style, junk)
+                got, out, err = ic.run_snoop(text, rx_arg, tx_arg)
+                nsn += 1
+                ck.count(("snoop", rx_arg, text))
+                if err or got != want:
+                    ck.violation(f"odxtools snoop (--rx {rx_arg} --tx {tx_arg}; None = from the database) on a candump log "
+                                 f"{'raised ' + err if err else 'reports other telegrams than the transmitted ones'}",
+                                 {"snoop": True, "rx_arg": rx_arg, "tx_arg": tx_arg, "log": text, "expected": want, "reported": got})
+                    break
+        ck.coverage["snoop_runs"] = nsn
     ck.assumptions = ["normal (not extended/mixed) ISO-TP addressing", "telegram lengths 1..4095 (12-bit first-frame length)"]
     ck.finish(
         trusted_base=[
